@@ -96,6 +96,8 @@ def main() -> int:
     ctx.partial = list(getattr(mod, "PARTIAL", []))
     ctx.assumptions = list(getattr(mod, "ASSUMPTIONS", []))
     known = common.load_known_findings(pid)
+    if os.environ.get("VERIF_FORCE_SCALE"):       # development: exercise the enlarged-search budget directly
+        ctx.scale = int(os.environ["VERIF_FORCE_SCALE"])
 
     # ---------------------------------------------------------------- replay mode
     if args.replay:
